@@ -197,6 +197,8 @@ BLOCKS = {
     'newenvironment': ('macro', 'W', '\\newenvironment{myenv}{[}{]}\\begin{myenv}e%(n)s\\end{myenv}\n'),
     'provideenv': ('macro', 'R', '\\providecommand{\\myenvx}{U}\\myenvx %(n)s\n'),
     'captionname': ('pkgtable', 'R', '\\begin{figure}cf%(n)s\\caption{Cn %(n)s}\\end{figure} \\figurename{} \\tablename{} \\contentsname\n'),
+    'input_file': ('environment', 'R', 'Inc: \\input{inc} and \\input{sub/inc2} done%(n)s.\n'),
+    'input_missing': ('environment', 'W', 'Try \\InputIfFileExists{nosuchfile%(n)s}{yes}{no} \\IfFileExists{inc.tex}{have}{havenot}.\n'),
     'openout': ('switch', 'W', '\\openout\\myout=file%(n)s.aux \n'),
     'skip_dimen': ('switch', 'N', 'A\\vskip 3pt B\\hskip 2pt C%(n)s.\n'),
     'skip_glue': ('switch', 'N', 'A\\vspace{3pt plus 1pt} B\\hspace{2pt} C%(n)s.\n'),
@@ -444,6 +446,12 @@ def history_job(args, fs):
 
     plasTeX.Compile.parse = parse
     root = os.getcwd()
+    # small include files next to the job sources (kpsewhich juggles TEXINPUTS in os.environ while looking them up)
+    with open('inc.tex', 'w') as f:
+        f.write('included text\n')
+    os.makedirs('sub', exist_ok=True)
+    with open(os.path.join('sub', 'inc2.tex'), 'w') as f:
+        f.write('nested include \\input{inc}\n')
     for j, job in enumerate(args['jobs']):
         SimClock.now = job['clock']
         os.chdir(root)
